@@ -152,6 +152,7 @@ class World:
 
     def __init__(self, seed=0):
         self.seed = int(seed)
+        self.cwd = self.CWD        # the working directory may change during a run (C18: relative start directories)
         self.files = {}            # abs path -> bytearray
         self.dirs = {"/", "/work", "/home", "/home/sim", "/keys", "/data", "/inc"}
         self.unreadable = set()    # file paths that cannot be opened for reading
@@ -175,6 +176,7 @@ class World:
         w.unreadable = set(self.unreadable)
         w.unwritable = set(self.unwritable)
         w.env = SimEnv(self.env)
+        w.cwd = self.cwd
         w.dns = dict(self.dns)
         w.seq = self.seq
         w.step = self.step
@@ -228,7 +230,7 @@ class World:
         if not isinstance(path, str):
             raise TypeError("expected str, bytes or os.PathLike object, not %s" % type(path).__name__)
         if not posixpath.isabs(path):
-            path = posixpath.join(self.CWD, path)
+            path = posixpath.join(self.cwd, path)
         return posixpath.normpath(path)
 
     def expanduser(self, path):
